@@ -6,7 +6,11 @@ import random
 
 NAMES = ["a", "b", "c", "d", "ab", "", "a b", "'", '"', "\\", "é", "😀", "\n", "\x00", "_x", "A1",
          # every supplementary plane parity (surrogate arithmetic), and quotes at the ends
-         "\U00020000", "\U000e0001x", "\U0010ffff", "x\"", "\"x", "y'", "\\"]
+         "\U00020000", "\U000e0001x", "\U0010ffff", "x\"", "\"x", "y'", "\\",
+         # canonically equivalent but different scalar sequences (no normalisation in RFC 9535), compatibility characters
+         "e\u0301", "\u212b", "\u00c5", "A\u030a", "\uf900", "\u8c48", "\ufb01", "fi",
+         # a backslash next to a quote, several backslashes
+         "a\\\"b", "\\\"", "\\'", "\\\\'", "\\\\\\\""]
 SIMPLE_NAMES = ["a", "b", "c", "d"]
 
 SCALARS = [
@@ -307,7 +311,7 @@ PROBE_FNS = [
 # ---------------------------------------------------------------------------------
 # invalid / arbitrary query strings
 
-ALPHABET = list("$@.[]()?*,:'\"\\!=<>&| \t\n-+0123456789eEabcdftnrlsu_/") + ["é", "😀", "\x00", "\x1f", "\x7f", "A", "Z", "x", "\u0663", "\uff11", "\U0001d7cf", "\u0967", "\u00b2", "\u2160"]
+ALPHABET = list("$@.[]()?*,:'\"\\!=<>&| \t\n-+0123456789eEabcdftnrlsu_/") + ["é", "😀", "\x00", "\x1f", "\x7f", "A", "Z", "x", "{", "}", "%", "\u00a0", "\u2028", "\u0663", "\uff11", "\U0001d7cf", "\u0967", "\u00b2", "\u2160"]
 TOKENS = ["$", "@", ".", "..", "[", "]", "(", ")", "?", "*", ",", ":", "'a'", '"b"', "!", "==", "!=", "<", "<=", ">", ">=",
           "&&", "||", " ", "\n", "-", "0", "1", "-1", "01", "-0", "1.5", "1e2", "1E-2", "0e0", "true", "false", "null",
           "True", "a", "b", "length", "count", "value", "match", "search", "length(", "count(", "foo(", "\\", "\\u0061",
@@ -315,7 +319,7 @@ TOKENS = ["$", "@", ".", "..", "[", "]", "(", ")", "?", "*", ",", ":", "'a'", '"
           "1.", ".5", "1e", "1e+", "+1", "--1", "''", '""',
           # numbers spelled with decimal digits outside %x30-39 (lenient digit classes accept them, float()/int() too)
           "1.\u0665", "\u0661.5", "1e-\u0662", "\uff11.5", "\u0663", "\U0001d7cf.\U0001d7d3", "1.5e\u0661", "-\u0661", "1\u0660", "\u0967.\u0967",
-          "1.5\u0660", "2e-1\u0663", "0.\uff10"]
+          "1.5\u0660", "2e-1\u0663", "0.\uff10", "{", "}", "{}", "{0}", "{a}", "%s", "%(a)s", ".a{", ".a\u00a0", "..x\u2028", ".\u3000"]
 
 
 def mutate(rng: random.Random, q: str) -> str:
